@@ -112,6 +112,9 @@ fn compile_one(p2: &std::path::Path, src: &str, dumps: bool, core_json: bool, ir
                         out["lift"] = Value::from(c.lambda.to_pretty(&c.liftenv, WIDTH));
                         out["anf"] = Value::from(c.anf.to_pretty(&c.anfenv, WIDTH));
                         out["tast"] = Value::from(c.tast.to_pretty(&c.genv, WIDTH));
+                        out["ast"] = Value::from(c.ast.to_pretty(WIDTH));
+                        let ctx = compiler::pprint::hir_pprint::HirPrintCtx::new(&c.hir_table);
+                        out["hir"] = Value::from(c.hir.to_pretty(&ctx, WIDTH));
                     }
                     if core_json {
                         out["core_json"] = serde_json::to_value(&c.core).unwrap_or(Value::Null);
